@@ -106,6 +106,30 @@ def binary(p, cfg, F, rels, folders, vs):
         ok, st = _call(vs, "subpath", p.is_subpath, F, t, True)
         if ok and st != want:
             vs.setdefault(("subpath", "strict"), {"law": "subpath", "folder": F, "rel": r, "got": st})
+    # other spellings of the same folder (trailing / repeated / alternate separators) name the same folder
+    if F != sep:
+        alt = cfg["alt"]
+        # (what normalize_path_separators documents: alternate -> primary, trailing separators stripped; repeated separators
+        #  INSIDE a folder argument are not collapsed by is_subpath and are left out of the domain, like in section 10.3)
+        variants = [F + sep, F + sep + sep]
+        if alt:
+            variants += [F + alt, F + sep + alt, sep + F[len(sep):].replace(sep, alt)]
+        for V in sorted(set(variants) - {F}):
+            for r in rels[::5]:
+                t = p.join(F, r)
+                ok, rel = _call(vs, "subpath-spelling", p.is_subpath, V, t)
+                if ok and rel != sep + r:
+                    vs.setdefault(("subpath-spelling", "relative-part"), {"law": "subpath-spelling", "folder": V, "same_as": F,
+                                                                          "target": t, "got": rel, "want": sep + r})
+                ok, got = _call(vs, "replace-spelling", p.replace_path, t, V, F)
+                if ok and got != t:
+                    vs.setdefault(("replace-spelling", "moved-part"), {"law": "replace-spelling", "path": t, "from": V, "to": F,
+                                                                       "got": got})
+            for x in ("a", "ab", "a" + sep + "x", "A" + sep + "x", "ab" + sep + "x", "abc" + sep + "x"):
+                ok, rel = _call(vs, "prefix-sibling-spelling", p.is_subpath, V, F + x)
+                if ok and rel:
+                    vs.setdefault(("prefix-sibling-spelling", "accepted"), {"law": "prefix-sibling-spelling", "folder": V,
+                                                                            "target": F + x, "got": rel})
     if F != sep:
         for x in ("a", "A", ".", " ", "b/a".replace("/", sep)):
             ok, rel = _call(vs, "prefix-sibling", p.is_subpath, F, F + x)
